@@ -200,6 +200,21 @@ def check_memory(ctx, bs, mult, scratch, case_ref, shape):
         return res
 
     idx = measure("indexing", lambda: index_fasta_file(p, bs))
+
+    def via_class():
+        from tola.fasta.index import FastaIndex
+
+        for q in (Path(str(p) + ".fai"), Path(str(p) + ".agp")):
+            q.unlink(missing_ok=True)
+        fi_ = FastaIndex(p, bs)
+        fi_.auto_load()
+        return fi_.index, fi_.assembly
+
+    idx2 = measure("indexing-via-FastaIndex", via_class)
+    if idx_plain(*idx2) != idx_plain(*idx):
+        ctx.violation("index-via-class-differs", "FastaIndex.auto_load() and index_fasta_file() disagree", case)
+    for q in (Path(str(p) + ".fai"), Path(str(p) + ".agp")):
+        q.unlink(missing_ok=True)
     info = idx[0]["big"]
     if info.length != L:
         ctx.violation("index-length", f"{info.length} vs {L}", case)
@@ -273,6 +288,7 @@ def gates(c, tier):
         "io:chunks:get_gap_iter": 2000,
         "io:full-chunks": 1000,
         "mem:indexing": 4,
+        "mem:indexing-via-FastaIndex": 4,
         "mem:stream-forward": 4,
         "mem:stream-reverse": 4,
         "mem:stream-gap": 4,
